@@ -85,7 +85,35 @@ struct gen {
   sentinel end() { return {}; }
 };
 
+// a lazily started task type WITHOUT a nested promise_type: its promise is found only through std::coroutine_traits
+template <typename T> struct ext_stream;
+template <typename T> struct ext_stream_promise {
+  std::optional<T> cur, ret; std::exception_ptr ex;
+  ext_stream<T> get_return_object();
+  std::suspend_always initial_suspend() noexcept { return {}; }
+  std::suspend_always final_suspend() noexcept { return {}; }
+  std::suspend_always yield_value(T v) { cur = std::move(v); return {}; }
+  void return_value(T v) { ret = std::move(v); }
+  void unhandled_exception() { ex = std::current_exception(); }
+};
+template <typename T> struct ext_stream {
+  std::coroutine_handle<ext_stream_promise<T>> h;
+  explicit ext_stream(std::coroutine_handle<ext_stream_promise<T>> h_) : h(h_) {}
+  ext_stream(ext_stream&& o) noexcept : h(std::exchange(o.h, {})) {}
+  ~ext_stream() { if (h) h.destroy(); }
+  bool await_ready() const noexcept { return false; }
+  void await_suspend(std::coroutine_handle<>) noexcept {}
+  T await_resume() { if (h.promise().ex) std::rethrow_exception(h.promise().ex); return *h.promise().ret; }
+};
+template <typename T> ext_stream<T> ext_stream_promise<T>::get_return_object() { return ext_stream<T>{std::coroutine_handle<ext_stream_promise<T>>::from_promise(*this)}; }
+}  // namespace c20
+template <typename T, typename... A> struct std::coroutine_traits<c20::ext_stream<T>, A...> { using promise_type = c20::ext_stream_promise<T>; };
+namespace c20 {
+
+extern int g_live;  // a variable LR_CO_YIELD clauses refer to: modified after the expectation was created
+
 struct M {
+  MAKE_MOCK0(xs, (ext_stream<int>()));
   MAKE_MOCK0(te, (task<int, true>()));
   MAKE_MOCK0(tl, (task<int, false>()));
   MAKE_MOCK0(ve, (task<void, true>()));
@@ -122,6 +150,19 @@ struct TaskCoro : ICoro {
     return observe();
   }
 };
+struct ExtCoro : ICoro {
+  ext_stream<int> t; bool fin = false;
+  explicit ExtCoro(ext_stream<int>&& t_) : t(std::move(t_)) {}
+  bool finished() const override { return fin; }
+  std::string at_call() override { return ""; }
+  std::string step() override {
+    t.h.promise().cur.reset(); t.h.resume();
+    auto& p = t.h.promise();
+    if (!t.h.done()) return p.cur ? "Y" + std::to_string(*p.cur) : std::string("?suspended-without-yield");
+    fin = true;
+    try { return "R" + std::to_string(t.await_resume()); } catch (std::exception& e) { return std::string("X") + e.what(); } catch (...) { return "Xunknown"; }
+  }
+};
 struct GenCoro : ICoro {
   gen<int> g; std::optional<gen<int>::iterator> it; bool fin = false;
   explicit GenCoro(gen<int>&& g_) : g(std::move(g_)) {}
@@ -143,6 +184,7 @@ struct ShapeDesc {
   int nyield;                       // CO_YIELD clauses (values 10, 11, ...)
   const char* terminal;             // expected final event
   int times;                        // TIMES(n)
+  int live;                         // > 0: the yields are LR_CO_YIELD(g_live + i); g_live is set to this value AFTER the expectation was created
   E (*make)(M&);
   std::unique_ptr<ICoro> (*call)(M&);
 };
